@@ -193,7 +193,41 @@ func c16run(line string) (string, []string) {
 		if i < 0 {
 			return "unknown", nil
 		}
-		res, viol := c16extract(f[i+1] == "1", unhx(f[i+2]), nil)
+		// every other case: the source archive declares regional bounds that lie inside the region's bounding box (archives of one
+		// country extracted with a larger polygon), not the whole world
+		var src *[4]int32
+		var k, n int
+		fmt.Sscan(f[1], &k)
+		fmt.Sscan(f[2], &n)
+		if n > 0 && len(f[i+2])%2 == 0 && (len(f[i+2])/2)%2 == 1 {
+			scale := int64(1)
+			for j := k; j < 7; j++ {
+				scale *= 10
+			}
+			var lo0, lo1, la0, la1 int64
+			for j := 0; j < n; j++ {
+				var lo, la int64
+				fmt.Sscan(f[3+2*j], &lo)
+				fmt.Sscan(f[4+2*j], &la)
+				if j == 0 || lo < lo0 {
+					lo0 = lo
+				}
+				if j == 0 || lo > lo1 {
+					lo1 = lo
+				}
+				if j == 0 || la < la0 {
+					la0 = la
+				}
+				if j == 0 || la > la1 {
+					la1 = la
+				}
+			}
+			w, h := (lo1-lo0)/5, (la1-la0)/5
+			if w > 0 && h > 0 {
+				src = &[4]int32{int32((lo0 + w) * scale), int32((la0 + h) * scale), int32((lo1 - w) * scale), int32((la1 - h) * scale)}
+			}
+		}
+		res, viol := c16extractB(f[i+1] == "1", unhx(f[i+2]), src)
 		return c16canonHdr(f, res), viol
 	}
 	return "unknown", nil
@@ -264,6 +298,9 @@ func indexOf(f []string, s string) int {
 
 // end to end: a full pyramid z0..5 as source (deep enough for tiles whose whole neighbourhood is interior), Extract with the region
 func c16extract(isBbox bool, regionText []byte, g *region) (string, []string) {
+	return c16extractB(isBbox, regionText, nil)
+}
+func c16extractB(isBbox bool, regionText []byte, srcBounds *[4]int32) (string, []string) {
 	var es []Ent
 	var data []byte
 	for id := uint64(0); id < 1365; id++ {
@@ -273,6 +310,10 @@ func c16extract(isBbox bool, regionText []byte, g *region) (string, []string) {
 	}
 	rr := &rng{s: 5}
 	a := buildArchive(rr, es, data, archOpts{tree: treeOpts{depth: 1, fan: 60, gzip: true, shorthand: true}, tileType: 1, tileComp: 1, meta: `{"name":"src"}`, minZoom: 0, maxZoom: 5, clustered: true})
+	if srcBounds != nil {
+		a.H.MinLon, a.H.MinLat, a.H.MaxLon, a.H.MaxLat = srcBounds[0], srcBounds[1], srcBounds[2], srcBounds[3]
+		copy(a.Bytes, specEncodeHeader(a.H))
+	}
 	dir, _ := os.MkdirTemp("", "vh-c16")
 	defer os.RemoveAll(dir)
 	src, out := filepath.Join(dir, "src.pmtiles"), filepath.Join(dir, "out.pmtiles")
@@ -331,7 +372,7 @@ func c16extract(isBbox bool, regionText []byte, g *region) (string, []string) {
 func c16(r *rng, tier string, o *out) {
 	n, ne := 140, 40
 	if tier == "thorough" {
-		n, ne = 3000, 600
+		n, ne = 8000, 1500
 	}
 	randRing := func(cx, cy, rad int64, nv int, concave bool) dring {
 		var rg dring
